@@ -19,6 +19,10 @@ Notation reach := (Server.reach decomp decode K).
 Notation reach_by := (Server.reach_by decomp decode K).
 Notation next_input := (Server.next_input decomp decode).
 
+(* SCOPE of 1(a) and 3 for the thread pool: connections are identified with their table keys, which the model never reuses (see the SCOPE note
+   at c17_pool_single_owner: descriptor-number reuse is checked by the harness op `hookhold`).  SCOPE of 2(a): [EAcceptFail] is an error of
+   listener.accept(); failure to START the worker for an accepted client (spawn / os.fork at the thread or process limit) is not an event of
+   the model -- harness op `nospawn`, finding accept-loop-ended-on-spawn-failure:threaded. *)
 (* 1. isolation.  (a) Nothing a client does, and nothing the server does on behalf of that client -- accepting it, serving,
       failing, dropping it -- changes the record (service instance, table, buffers, replies) of any OTHER connection. *)
 Theorem c16_isolation_noninterference : forall s e s', kind K <> OneShot -> e <> EClose -> e <> EAcceptFail -> step e s = Some s' ->
